@@ -148,7 +148,11 @@ package dns
 //@ func (*DNSKEY).ToDS [C17]
 //@   opt no-safety
 //@   assert at "wire := make([]byte, DefaultMsgSize)" keyvars: keywire.Flags == k.Flags && keywire.Protocol == k.Protocol && keywire.Algorithm == k.Algorithm && keywire.PublicKey == k.PublicKey
-//@   callsite "PackDomainName" owner: arg0 == callres("CanonicalName") && callarg("CanonicalName", 0) == k.Hdr.Name && arg2 == 0 && arg3 == nil && !arg4
+// the owner is hashed in canonical wire form: the wire octets of the (fully qualified) name as given, with the
+// letters A-Z folded however they were written (as in HashName)
+//@   ghost pk at "owner = owner[:off]" owner
+//@   assert at "s := hash.New()" canon: callarg("PackDomainName", 0) == callres("Fqdn") && callarg("Fqdn", 0) == k.Hdr.Name && len(owner) == off && (forall j in 0..len(owner) :: owner[j] == lower(pk[j]))
+//@   callsite "PackDomainName" plain: arg2 == 0 && arg3 == nil && !arg4
 //@   callsite "Write" fed: same(arg0, owner) || same(arg0, wire)
 //@   assert at "ds.Digest = hex.EncodeToString(s.Sum(nil))" order: same(callarg("Write", 0), wire)
 //@   exit fields: ret0 != nil ==> ret0.Hdr.Rrtype == 43 && ret0.Hdr.Class == k.Hdr.Class && ret0.Hdr.Ttl == k.Hdr.Ttl && ret0.Hdr.Name == k.Hdr.Name && ret0.Algorithm == k.Algorithm && ret0.DigestType == h && ret0.KeyTag == callres("KeyTag")
